@@ -72,7 +72,21 @@ type vC12Rec struct {
 	on    bool
 	led   *middleware.RecursionWorkLedger
 	evs   []string
-	alien int // sub-runs whose context carried a different ledger than the tree's
+	pairs []string // (parent label option, label) of every sub-run, parent read from the context the probe handed down
+	alien int      // sub-runs whose context carried a different ledger than the tree's
+}
+
+// vC12ParentKey carries the label of the pipeline run a context descends from (set by the probe, read by the probe of
+// the next sub-run). A detached job starts from context.Background(): its first sub-run finds none.
+type vC12ParentKey struct{}
+
+func vC12Label(ctx context.Context, nest int) string { return vC12LabelAs("mk_sl", ctx, nest) }
+
+func vC12LabelAs(ctor string, ctx context.Context, nest int) string {
+	dn, _ := ctx.Value(contextKeyDnameDepth).(int)
+	nsl := ctx.Value(contextKeyNSL) != nil
+	return fmt.Sprintf("%s %d (mk_cx %s %d %d %s)", ctor, nest, vC12Flag(middleware.IsBestEffortRecursionWork(ctx)),
+		cachemw.VC12ChaseDepth(ctx), dn, vC12Flag(nsl))
 }
 
 func (r *vC12Rec) packet() {
@@ -100,13 +114,99 @@ func (r *vC12Rec) sub(ctx context.Context, nest int) bool {
 	if l := middleware.RecursionWorkFrom(ctx); l != r.led {
 		r.alien++
 	}
-	dn, _ := ctx.Value(contextKeyDnameDepth).(int)
-	nsl := ctx.Value(contextKeyNSL) != nil
+	label := vC12Label(ctx, nest)
 	s := r.led.Snapshot()
-	r.evs = append(r.evs, fmt.Sprintf("EvS (mk_sl %d (mk_cx %s %d %d %s)) %d %d", nest,
-		vC12Flag(middleware.IsBestEffortRecursionWork(ctx)), cachemw.VC12ChaseDepth(ctx), dn, vC12Flag(nsl),
-		s.OutboundQueries, s.InternalQueries))
+	r.evs = append(r.evs, fmt.Sprintf("EvS (%s) %d %d", label, s.OutboundQueries, s.InternalQueries))
+	if par, ok := ctx.Value(vC12ParentKey{}).(string); ok {
+		r.pairs = append(r.pairs, fmt.Sprintf("(Some (%s), %s)", par, label))
+	} else {
+		r.pairs = append(r.pairs, fmt.Sprintf("(None, %s)", label))
+	}
 	return true
+}
+
+// vC12Store stands between the resolver and the cache's store: Resolver.subQuery (the DS / DNSKEY fetches of DNSSEC
+// validation) is the store's only client. A miss is remembered with the context it came from; when the fetched
+// response is handed back for storing, the direct sub-resolution has run to completion and is logged as a sub-run of
+// kind mk_dl (same nesting, same context as the run it validates for) with the ledger counters of that moment.
+type vC12Store struct {
+	inner   middleware.Store
+	rec     *vC12Rec
+	mu      sync.Mutex
+	pending map[string][2]string
+}
+
+func vC12StoreKey(q dns.Question, cd bool) string {
+	return strings.ToLower(q.Name) + "|" + strconv.Itoa(int(q.Qtype)) + "|" + vC12Flag(cd)
+}
+
+func (s *vC12Store) Get(req *dns.Msg) (*dns.Msg, bool) { return s.inner.Get(req) }
+func (s *vC12Store) GetWithContext(ctx context.Context, req *dns.Msg) (*dns.Msg, bool) {
+	var msg *dns.Msg
+	var ok bool
+	if cs, aware := s.inner.(middleware.ContextStore); aware {
+		msg, ok = cs.GetWithContext(ctx, req)
+	} else {
+		msg, ok = s.inner.Get(req)
+	}
+	if !ok && len(req.Question) == 1 {
+		nest := middleware.VC12QueryerDepth(ctx)
+		par, _ := ctx.Value(vC12ParentKey{}).(string)
+		s.mu.Lock()
+		s.pending[vC12StoreKey(req.Question[0], req.CheckingDisabled)] = [2]string{vC12LabelAs("mk_dl", ctx, nest), par}
+		s.mu.Unlock()
+	}
+	return msg, ok
+}
+func (s *vC12Store) done(resp *dns.Msg, keyCD bool) {
+	if resp == nil || len(resp.Question) != 1 {
+		return
+	}
+	k := vC12StoreKey(resp.Question[0], keyCD)
+	s.mu.Lock()
+	p, ok := s.pending[k]
+	delete(s.pending, k)
+	s.mu.Unlock()
+	if ok {
+		s.rec.direct(p[0], p[1])
+	}
+}
+func (s *vC12Store) SetFromResponse(resp *dns.Msg, keyCD bool, cutUntil time.Time) {
+	s.done(resp, keyCD)
+	s.inner.SetFromResponse(resp, keyCD, cutUntil)
+}
+func (s *vC12Store) SetFromResponseWithCut(resp *dns.Msg, keyCD bool, cutUntil time.Time, cutKey uint64) {
+	s.done(resp, keyCD)
+	if cs, ok := s.inner.(middleware.CutStore); ok {
+		cs.SetFromResponseWithCut(resp, keyCD, cutUntil, cutKey)
+		return
+	}
+	s.inner.SetFromResponse(resp, keyCD, cutUntil)
+}
+func (s *vC12Store) RecordZoneFailure(q dns.Question, zone string) {
+	if fs, ok := s.inner.(middleware.ResolutionFailureStore); ok {
+		fs.RecordZoneFailure(q, zone)
+	}
+}
+func (s *vC12Store) ClearZoneFailure(q dns.Question, zone string) {
+	if fs, ok := s.inner.(middleware.ResolutionFailureStore); ok {
+		fs.ClearZoneFailure(q, zone)
+	}
+}
+
+func (r *vC12Rec) direct(label, parent string) {
+	r.mu.Lock()
+	defer r.mu.Unlock()
+	if !r.on || r.led == nil {
+		return
+	}
+	s := r.led.Snapshot()
+	r.evs = append(r.evs, fmt.Sprintf("EvS (%s) %d %d", label, s.OutboundQueries, s.InternalQueries), "EvE")
+	if parent != "" {
+		r.pairs = append(r.pairs, fmt.Sprintf("(Some (%s), %s)", parent, label))
+	} else {
+		r.pairs = append(r.pairs, fmt.Sprintf("(None, %s)", label))
+	}
 }
 
 func (r *vC12Rec) end() {
@@ -578,6 +678,33 @@ func vC12Shared() vC12Topo {
 		}}
 }
 
+// every zone g<k>. is delegated to ns.g<k+1>. with an A glue only: resolving www.g0. is two packets, but with
+// IPv6Access each new delegation spawns a detached walk that asks AAAA ns.g<k+1>., which meets the delegation of
+// g<k+1>., which spawns the next walk ... — one generation per defaultTimeout, each on a fresh context
+func vC12V6Chain() vC12Topo {
+	return vC12Topo{fam: 11, name: "v6-chain", servers: 2, v6: true, qname: "www.g0.",
+		answer: func(srv int, q dns.Question, tcp bool) *dns.Msg {
+			lower := strings.ToLower(q.Name)
+			idx := strings.LastIndex(strings.TrimSuffix(lower, "."), ".")
+			apex := lower[idx+1:]
+			var k int
+			if _, err := fmt.Sscanf(apex, "g%d.", &k); err != nil {
+				return vC12Neg(".", dns.RcodeNameError)
+			}
+			if srv == 0 {
+				host := fmt.Sprintf("ns.g%d.", k+1)
+				return &dns.Msg{Ns: []dns.RR{vC12NS(apex, host)}, Extra: []dns.RR{vC12A(host, vC12Glue(1))}}
+			}
+			if lower == "www."+apex && q.Qtype == dns.TypeA {
+				return vC12Auth(vC12A(q.Name, net.IPv4(203, 0, 113, 16)))
+			}
+			if lower == apex || strings.HasPrefix(lower, "ns.") || strings.HasPrefix(lower, "www.") {
+				return vC12Neg(apex, dns.RcodeSuccess)
+			}
+			return vC12Neg(apex, dns.RcodeNameError)
+		}}
+}
+
 // finite: the topology resolves (or fails) in bounded work even with the firewall off, quickly
 func vC12RandTopo(r *rand.Rand, finite bool) vC12Topo {
 	switch r.Intn(10) {
@@ -628,10 +755,12 @@ func (p *vC12Probe) Name() string { return "vc12probe" }
 func (p *vC12Probe) ServeDNS(ctx context.Context, ch *middleware.Chain) {
 	p.runs.Add(1)
 	// the code's own nesting counter: 0 in the client's chain, depth+1 inside Queryer.Query
-	if nest := middleware.VC12QueryerDepth(ctx); nest > 0 && p.rec.sub(ctx, nest) {
+	nest := middleware.VC12QueryerDepth(ctx)
+	if nest > 0 && p.rec.sub(ctx, nest) {
 		defer p.rec.end()
 	}
-	ch.Next(ctx)
+	// hand this run's label down: the probe of a sub-run started from here reads it as its parent
+	ch.Next(context.WithValue(ctx, vC12ParentKey{}, vC12Label(ctx, nest)))
 	// the ledger is materialised by the first debit at the latest; the client's own chain
 	// returns last, so the pointer left here is the tree's
 	if l := middleware.RecursionWorkFrom(ctx); l != nil {
@@ -649,16 +778,85 @@ type vC12Rig struct {
 }
 
 // traced runs one client query on its own ledger and returns the event sequence of its request tree
-func (rig *vC12Rig) traced(qname string, edns bool) (vC12Reply, []string, int) {
+func (rig *vC12Rig) traced(qname string, edns bool) (vC12Reply, []string, []string, int) {
 	own := middleware.NewRecursionWorkLedger(rig.policy)
 	rig.rec.mu.Lock()
-	rig.rec.led, rig.rec.evs, rig.rec.alien, rig.rec.on = own, nil, 0, own != nil
+	rig.rec.led, rig.rec.evs, rig.rec.pairs, rig.rec.alien, rig.rec.on = own, nil, nil, 0, own != nil
 	rig.rec.mu.Unlock()
 	rep := rig.queryWith(qname, edns, own)
 	rig.rec.mu.Lock()
 	defer rig.rec.mu.Unlock()
 	rig.rec.on = false
-	return rep, rig.rec.evs, rig.rec.alien
+	return rep, rig.rec.evs, rig.rec.pairs, rig.rec.alien
+}
+
+// ---------------------------------------------------------------- DNSSEC-on rig: the repository's hermetic signed namespace
+
+// a signed root delegating: sec. (signed, in-zone nameserver with glue), via. (signed, its only nameserver is named in
+// sec. — no glue, the address has to be looked up), ins. (insecure delegation: the root proves there is no DS),
+// n3. (signed, NSEC3 denial). The validating resolver fetches DS / DNSKEY RRsets through Resolver.subQuery.
+func vC12NewSignedRig(t *testing.T, mode int, maxOut, maxInt uint32, qmin, v6 bool) *vC12Rig {
+	n := newHermeticNet(t)
+	sec := n.Delegate("sec.")
+	sec.Serve(vC12A("www.sec.", net.IPv4(203, 0, 113, 21)))
+	via := n.DelegateVia("via.", "ns1.sec.")
+	sec.Serve(vC12A("ns1.sec.", via.glue))
+	via.Serve(vC12A("www.via.", net.IPv4(203, 0, 113, 22)))
+	ins := n.DelegateInsecure("ins.")
+	ins.Serve(vC12A("www.ins.", net.IPv4(203, 0, 113, 23)))
+	n3 := n.DelegateNSEC3("n3.")
+	n3.Serve(vC12A("www.n3.", net.IPv4(203, 0, 113, 24)))
+
+	dir := os.Getenv("VERIF_SCRATCH")
+	if dir == "" {
+		dir = os.TempDir()
+	}
+	dir, _ = os.MkdirTemp(dir, "c12sec")
+	cfg := &config.Config{
+		Directory:            dir,
+		RootServers:          []string{n.root.addr},
+		RootKeys:             []string{n.rootKey.key.String()},
+		DNSSEC:               "on",
+		Maxdepth:             30,
+		Expire:               600,
+		CacheSize:            4096,
+		MaxConcurrentQueries: 128,
+		IPv6Access:           v6,
+		Timeout:              config.Duration{Duration: time.Second},
+		QueryTimeout:         config.Duration{Duration: 6 * time.Second},
+	}
+	if qmin {
+		cfg.QnameMinLevel = 5
+	}
+	cfg.RecursionFirewall = config.RecursionFirewallConfig{Mode: vC12Mode(mode), MaxOutboundQueries: maxOut, MaxInternalQueries: maxInt}
+	policy := middleware.MustRecursionWorkPolicyFromConfig(cfg.RecursionFirewall)
+	h := n.handlerWithConfig(cfg)
+	rec := &vC12Rec{}
+	net0 := &vC12Net{rec: rec}
+	hook := func(dns.Question) { net0.packets.Add(1); rec.packet() }
+	servers := []*hermeticServer{n.root}
+	for _, z := range n.zones {
+		servers = append(servers, z.server)
+	}
+	for _, sv := range servers {
+		sv.mu.Lock()
+		sv.beforeReply = hook
+		sv.mu.Unlock()
+	}
+	cm := cachemw.New(cfg)
+	probe := &vC12Probe{rec: rec}
+	reg := middleware.NewRegistry()
+	reg.Register("edns", func(c *config.Config) middleware.Handler { return edns.New(c) })
+	reg.Register("vc12probe", func(*config.Config) middleware.Handler { return probe })
+	reg.Register("cache", func(*config.Config) middleware.Handler { return cm })
+	reg.Register("resolver", func(*config.Config) middleware.Handler { return h })
+	p := reg.Build(cfg)
+	q := middleware.NewPipelineQueryer(p.SubPipeline())
+	h.SetQueryer(q)
+	h.SetStore(&vC12Store{inner: cm.Store(), rec: rec, pending: map[string][2]string{}})
+	cm.SetQueryer(q)
+	cm.SetPrefetchQueryer(middleware.NewPipelineQueryer(p.SubPipeline("cache")))
+	return &vC12Rig{v6: v6, net: net0, probe: probe, pipe: p, policy: policy, rec: rec}
 }
 
 func vC12Mode(m int) config.RecursionFirewallMode {
@@ -773,6 +971,9 @@ func (rig *vC12Rig) queryWith(qname string, edns bool, own *middleware.Recursion
 	if rig.v6 {
 		// the detached IPv6 walk starts after defaultTimeout; it debits the same (retained) ledger
 		time.Sleep(defaultTimeout + 400*time.Millisecond)
+		if g, _ := strconv.Atoi(os.Getenv("VERIF_C12_CHAIN")); g > 1 {
+			time.Sleep(time.Duration(g-1) * (defaultTimeout + 200*time.Millisecond))
+		}
 	}
 	out := vC12Reply{elapsed: el, written: w.Written(), rcode: -1}
 	out.packets = rig.net.packets.Load() - p0
@@ -936,19 +1137,16 @@ func TestVerifC12Lab(t *testing.T) {
 		boundary = append(boundary, f.t)
 	}
 	// one more client query on a fresh resolver, observed step by step
-	traceCase := func(topo vC12Topo, mode int, maxOut, maxInt uint32, qmin, edns bool) {
-		rig, err := vC12NewRig(topo, mode, maxOut, maxInt, qmin)
-		if err != nil {
-			emit(map[string]any{"k": "lab-trace", "inconclusive": true, "desc": err.Error()})
-			return
-		}
-		rep, evs, alien := rig.traced(topo.qname, edns)
-		rig.net.stop()
-		tree := !topo.v6 // the detached IPv6 walk runs beside the client's chain on a fresh context
+	var emitTraceHook func(name string, v6 bool, mode int, maxOut, maxInt uint32, rep vC12Reply, evs, pairs []string, alien int, desc map[string]any)
+	emitTrace := func(name string, v6 bool, mode int, maxOut, maxInt uint32, rep vC12Reply, evs, pairs []string, alien int, desc map[string]any) {
+		tree := !v6 // detached IPv6 walks run beside each other: no stack discipline, the (parent, child) pairs are still checked
 		if len(evs) > 600 {
 			evs, tree = evs[:600], false
 		}
-		subs, xs := 0, 0
+		if len(pairs) > 300 {
+			pairs = pairs[:300]
+		}
+		subs, xs, roots := 0, 0, 0
 		for _, e := range evs {
 			if strings.HasPrefix(e, "EvS") {
 				subs++
@@ -956,18 +1154,84 @@ func TestVerifC12Lab(t *testing.T) {
 				xs++
 			}
 		}
+		for _, pr := range pairs {
+			if strings.HasPrefix(pr, "(None") {
+				roots++
+			}
+		}
 		goFail := ""
 		if alien != 0 {
 			goFail = fmt.Sprintf("%d sub-pipeline runs carried a ledger other than their request tree's", alien)
 		}
 		modeName := map[int]string{1: "shadow", 2: "enforce"}[mode]
+		desc["mode"], desc["max_outbound"], desc["max_internal"] = modeName, maxOut, maxInt
+		desc["upstream_arrivals"], desc["sub_pipeline_runs"], desc["detached_roots"] = xs, subs, roots
+		desc["ledger_internal"], desc["reply"] = rep.ledInt, fmt.Sprintf("%+v", rep)
 		emit(map[string]any{
-			"k":          "lab-trace-" + modeName + "-" + topo.name,
-			"coq":        fmt.Sprintf("CaseTrace %d %d %d %s %s [%s]", mode, maxOut, maxInt, vC12Flag(topo.v6), vC12Flag(tree), strings.Join(evs, "; ")),
+			"k": "lab-trace-" + modeName + "-" + name,
+			"coq": fmt.Sprintf("CaseTrace %d %d %d %s %s [%s] [%s]", mode, maxOut, maxInt, vC12Flag(v6), vC12Flag(tree),
+				strings.Join(evs, "; "), strings.Join(pairs, "; ")),
 			"nontrivial": subs > 0 || xs > 1,
 			"go_fail":    goFail,
-			"desc": map[string]any{"topology": topo.name, "p1": topo.p1, "p2": topo.p2, "qname": topo.qname, "qmin": qmin, "edns": edns, "mode": modeName,
-				"max_outbound": maxOut, "max_internal": maxInt, "upstream_arrivals": xs, "sub_pipeline_runs": subs, "reply": fmt.Sprintf("%+v", rep)},
+			"desc":       desc,
+		})
+	}
+	defer func() {
+		// experiment (not part of the check): generations of detached walks within a window of VERIF_C12_CHAIN x defaultTimeout
+		if os.Getenv("VERIF_C12_CHAIN") != "" {
+			for _, m := range []int{1, 2} {
+				rig, err := vC12NewRig(vC12V6Chain(), m, 128, 32, false)
+				if err != nil {
+					continue
+				}
+				rep, evs, pairs, alien := rig.traced("www.g0.", true)
+				rig.net.stop()
+				emitTraceHook("v6-chain", true, m, 128, 32, rep, evs, pairs, alien, map[string]any{"topology": "v6-chain", "window_generations": os.Getenv("VERIF_C12_CHAIN")})
+			}
+		}
+	}()
+	emitTraceHook = emitTrace
+	// one more client query on a fresh resolver, observed step by step
+	traceCase := func(topo vC12Topo, mode int, maxOut, maxInt uint32, qmin, edns bool) {
+		rig, err := vC12NewRig(topo, mode, maxOut, maxInt, qmin)
+		if err != nil {
+			emit(map[string]any{"k": "lab-trace", "inconclusive": true, "desc": err.Error()})
+			return
+		}
+		rep, evs, pairs, alien := rig.traced(topo.qname, edns)
+		rig.net.stop()
+		emitTrace(topo.name, topo.v6, mode, maxOut, maxInt, rep, evs, pairs, alien,
+			map[string]any{"topology": topo.name, "p1": topo.p1, "p2": topo.p2, "qname": topo.qname, "qmin": qmin, "edns": edns})
+	}
+	// DNSSEC on: the signed namespace; the validating resolver's DS / DNSKEY fetches are direct sub-resolutions that
+	// debit the internal budget without passing the probe
+	signedN := 8
+	if os.Getenv("VERIF_TIER") == "thorough" {
+		signedN = 60
+	}
+	for c := 0; c < signedN; c++ {
+		qnames := []string{"www.sec.", "nx.sec.", "www.via.", "www.ins.", "www.n3.", "nx.n3.", "www.via.", "nx.ins."}
+		qname := qnames[c%len(qnames)]
+		mode := 2
+		if c%4 == 3 {
+			mode = 1
+		}
+		maxOut, maxInt := uint32(config.DefaultRecursionFirewallMaxOutboundQueries), uint32(config.DefaultRecursionFirewallMaxInternalQueries)
+		if c >= len(qnames)/2 {
+			maxOut, maxInt = uint32(2+r.Intn(12)), uint32(1+r.Intn(4))
+		}
+		qmin := c%2 == 0
+		v6 := false
+		rig := vC12NewSignedRig(t, mode, maxOut, maxInt, qmin, v6)
+		rep, evs, pairs, alien := rig.traced(qname, true)
+		desc := map[string]any{"topology": "signed", "qname": qname, "qmin": qmin, "edns": true}
+		emitTrace("signed", v6, mode, maxOut, maxInt, rep, evs, pairs, alien, desc)
+		emit(map[string]any{
+			"k": "lab-" + map[int]string{1: "shadow", 2: "enforce"}[mode] + "-signed",
+			"coq": fmt.Sprintf("CaseLab %d %d %d 10 %d 0 %s true false %d %d %d %d %d %d %d 0 0 0", mode, maxOut, maxInt, c%len(qnames), vC12Flag(qmin),
+				rep.packets, rep.ledOut, rep.ledInt, rep.runs, rep.first, vC12Rcode(rep.rcode), rep.ede),
+			"nontrivial": rep.ledInt > uint32(rep.runs),
+			"desc":       desc,
 		})
 	}
 	for c := 0; c < n+len(boundary); c++ {
